@@ -277,6 +277,18 @@ PROPS["C07"] = {
     ],
 }
 
+# bounded exhaustive schedule enumeration of fixed small programs (enum/*.case): (property, family, target, file, (K quick, K thorough))
+_ENUM = [("C01", "locks", "C01", "enum/C01-guarded-mutex.case", (3, 4)), ("C02", "locks", "C02", "enum/C02-shared-rendezvous.case", (3, 4)),
+         ("C03", "lrcow", "C03", "enum/C03-1w2m-1r2r.case", (4, 5)), ("C03", "lrcow", "C03", "enum/C03-2w1m-1r2r.case", (3, 4)),
+         ("C04", "lrcow", "C04", "enum/C04-commit-cancel-snapshots.case", (2, 3)), ("C05", "rcu", "C05", "enum/C05-walk-erase-short.case", (2, 3)),
+         ("C06", "deferred", "C06", "enum/C06-reader-detach-async.case", (3, 4)), ("C08", "locks", "C08", "enum/C08-gopt-timed.case", (3, 4)),
+         ("C09", "prims", "C09", "enum/C09-3p-2g-drops.case", (3, 4)), ("C10", "prims", "C10", "enum/C10-count2.case", (4, 5)),
+         ("C11", "prims", "C11", "enum/C11-activate-trigger-reset.case", (3, 4)), ("C12", "rcu", "C12", "enum/C12-traverse-erase-push.case", (2, 3)),
+         ("C13", "rcu", "C13", "enum/C13-handles-erase.case", (2, 3)), ("C19", "tripwire", "C19", "enum/C19-move-trigger-detectors.case", (3, 4))]
+for _pid, _fam, _tgt, _file, _k in _ENUM:
+    PROPS[_pid]["stages"].append({"family": _fam, "flavour": "plain", "target": _tgt, "enum": {"mode": "sched", "file": _file, "maxpre": _k}, "cases": (0, 0), "min_nontrivial_frac": 0.0})
+PROPS["C14"]["stages"].append({"family": "c14", "flavour": "plain", "target": "C14", "enum": {"mode": "cfg"}, "cases": (0, 0), "min_nontrivial_frac": 0.0})
+
 # libFuzzer campaigns (thorough tier only): (property, family, target)
 _FUZZ = [("C01", "locks", "C01"), ("C02", "locks", "C02"), ("C03", "lrcow", "C03"), ("C04", "lrcow", "C04"), ("C05", "rcu", "C05"), ("C06", "deferred", "C06"),
          ("C08", "locks", "C08"), ("C09", "prims", "C09"), ("C10", "prims", "C10"), ("C11", "prims", "C11"), ("C12", "rcu", "C12"), ("C13", "rcu", "C13"), ("C13", "rcu", "C13f"),
